@@ -7,6 +7,8 @@ import (
 	"fmt"
 	"os"
 	"strings"
+	"runtime"
+	"strconv"
 	"sync/atomic"
 	"time"
 
@@ -14,6 +16,7 @@ import (
 	"github.com/ngicks/gokugen/dispatcher/workerpool"
 	"github.com/ngicks/und/option"
 
+	"verifharness/internal/proto"
 	"verifharness/internal/sim"
 )
 
@@ -218,6 +221,11 @@ func dispExec(h sim.History) []string {
 	out := []string{"new disp"}
 	for _, line := range h.Ops {
 		tok := strings.Fields(line)
+		if len(tok) == 2 && tok[0] == "stress" {
+			n, _ := strconv.Atoi(tok[1])
+			out = append(out, dispStress(n)...)
+			continue
+		}
 		if (len(tok) != 6 && len(tok) != 7) || tok[0] != "case" {
 			continue
 		}
@@ -228,6 +236,103 @@ func dispExec(h sim.History) []string {
 		out = append(out, line+" -> "+runDispCase(tok[1], tok[2], tok[3], tok[4], tok[5], cdl))
 	}
 	return append(out, "end")
+}
+
+// dispStress: n dispatches on one real WorkerPoolDispatcher (2 workers), each cancelled from another goroutine a few
+// microseconds after Dispatch was entered — so that the cancellation lands anywhere between "before the hand-off to a
+// worker" and "inside the work function", including the instants in between that no scripted case reaches (the worker
+// has received the task but has not started on it). Whatever the instant, the protocol of C09 holds:
+// Dispatch returns EITHER an error and no channel, OR a channel that delivers exactly one value and is then closed —
+// and in the second case the fetcher ran exactly once.
+func dispStress(n int) []string {
+	var out []string
+	var fn def.WorkFn = func(ctx context.Context, param map[string]string) error { return nil }
+	registry := mapRegistry{"w": &fn}
+	d := workerpool.NewWorkerPoolDispatcher(registry)
+	d.WorkerPool.Add(2)
+	d.WorkerPool.WaitUntil(func(alive, sleeping, active int) bool { return alive == 2 })
+	defer func() {
+		d.WorkerPool.Remove(100)
+		done := make(chan struct{})
+		go func() { d.WorkerPool.Wait(); close(done) }()
+		select {
+		case <-done:
+		case <-time.After(2 * time.Second):
+		}
+	}()
+	// a second goroutine keeps asking the pool for its counters; the condition callback runs under the pool's lock, which a
+	// worker takes between receiving a task and starting on it: this stretches exactly the instants the scripted cases miss
+	stop := make(chan struct{})
+	lockerDone := make(chan struct{})
+	go func() {
+		defer close(lockerDone)
+		for {
+			select {
+			case <-stop:
+				return
+			default:
+			}
+			d.WorkerPool.WaitUntil(func(alive, sleeping, active int) bool {
+				t0 := time.Now()
+				for time.Since(t0) < 30*time.Microsecond {
+				}
+				return true
+			})
+			runtime.Gosched()
+		}
+	}()
+	defer func() { close(stop); <-lockerDone }()
+	bad := 0
+	for i := 0; i < n && bad < 3; i++ {
+		ctx, cancel := context.WithCancel(context.Background())
+		var fetched atomic.Int32
+		spin := i % 40
+		go func() {
+			for k := 0; k < spin*25; k++ {
+				runtime.Gosched()
+			}
+			cancel()
+		}()
+		ch, err := d.Dispatch(ctx, func(ctx context.Context) (def.Task, error) {
+			fetched.Add(1)
+			return def.Task{Id: "x", WorkId: "w"}, nil
+		})
+		problem := ""
+		switch {
+		case err != nil && ch != nil:
+			problem = "Dispatch returned both an error and a channel"
+		case err == nil && ch == nil:
+			problem = "Dispatch returned neither an error nor a channel"
+		case err == nil:
+			got := 0
+			timeout := time.After(30 * time.Second)
+		loop:
+			for {
+				select {
+				case _, ok := <-ch:
+					if !ok {
+						break loop
+					}
+					got++
+				case <-timeout:
+					problem = "the result channel was neither fed nor closed within 30s"
+					break loop
+				}
+			}
+			if problem == "" && got != 1 {
+				problem = fmt.Sprintf("the result channel delivered %d values before it was closed (exactly one is the protocol)", got)
+			}
+			if problem == "" && fetched.Load() != 1 {
+				problem = fmt.Sprintf("Dispatch reported success although the fetcher ran %d times", fetched.Load())
+			}
+		}
+		cancel()
+		if problem != "" {
+			bad++
+			out = append(out, "mismatch C09 a dispatch cancelled concurrently (cancellation fired after "+strconv.Itoa(spin*25)+" yields): "+proto.Str(problem))
+		}
+	}
+	return out
 }
 
 func cmdDisp(args []string) {
@@ -263,6 +368,7 @@ func cmdDisp(args []string) {
 				}
 			}
 		}
+		hists = append(hists, sim.History{Header: "new disp", Ops: []string{"stress 4000"}})
 		rep.Exhaustive = true
 	}
 	traces := make([][]string, len(hists))
